@@ -4,6 +4,7 @@ import (
 	"bytes"
 	"errors"
 	"fmt"
+	"net"
 	"runtime/pprof"
 	"strings"
 	"sync"
@@ -301,6 +302,47 @@ func c13Run(srv *svc.Server, sc c13Scenario, r *core.Rand) (viol [][2]string, in
 		time.Sleep(hold + 200*time.Millisecond)
 		closeIt()
 		time.Sleep(300 * time.Millisecond)
+	case "stalled-reader-then-close":
+		// the peer stays connected but stops reading (tiny receive buffer) while it keeps sending heartbeats: the replies fill
+		// the socket buffers until one write of the server blocks; commands queue up behind it for 6.5 s — longer than any write
+		// deadline an implementation may set — and then the peer closes. Every call returns once the connection is gone.
+		t.Close() // (t never sent a byte; it only lends its frame builder)
+		raw, err := net.DialTimeout("tcp", srv.Addr, 5*time.Second)
+		if err != nil {
+			return nil, true, false, nil
+		}
+		if tc, ok := raw.(*net.TCPConn); ok {
+			tc.SetReadBuffer(2048)
+		}
+		raw.Write(t.Frame(0x0002, 1, nil))
+		raw.SetReadDeadline(time.Now().Add(20 * time.Second))
+		if _, err := raw.Read(make([]byte, 15)); err != nil {
+			raw.Close()
+			return nil, true, false, nil
+		}
+		go func() {
+			var buf []byte
+			for k := 0; k < 200000; k++ {
+				buf = append(buf, t.Frame(0x0002, uint16(k), nil)...)
+				if len(buf) > 60000 {
+					raw.SetWriteDeadline(time.Now().Add(8 * time.Second))
+					if _, err := raw.Write(buf); err != nil {
+						return
+					}
+					buf = buf[:0]
+				}
+			}
+		}()
+		time.Sleep(1500 * time.Millisecond)
+		launchLim(sc.K, timeout, 6500*time.Millisecond+timeout+slack)
+		time.Sleep(6500 * time.Millisecond)
+		if sc.RST {
+			if tc, ok := raw.(*net.TCPConn); ok {
+				tc.SetLinger(0)
+			}
+		}
+		raw.Close()
+		time.Sleep(300 * time.Millisecond)
 	case "no-timeout-silent-peer":
 		// commands without a timeout (negative duration: the caller waits for the response or for the connection to end) to a
 		// terminal that reads them and stays silent for 9 s — longer than any guard an implementation may add on the caller's
@@ -469,6 +511,7 @@ func c13Worker(c *core.Collector, x *Ctx) {
 		for li, sc := range []c13Scenario{
 			{Point: "writer-held-long", K: 3, TimeoutMs: 100, RST: true, Key: "1900778", HoldMs: 6500},
 			{Point: "no-timeout-silent-peer", K: 4, TimeoutMs: 100, RST: false, Key: "1900779"},
+			{Point: "stalled-reader-then-close", K: 8, TimeoutMs: 100, RST: false, Key: "1900780"},
 		} {
 			longWG.Add(1)
 			go func(li int, sc c13Scenario) {
